@@ -16,6 +16,8 @@ def t1_hashmap(w, rel):
 def setup(w, name="", tier="thorough"):
     if tier == "quick":
         w.strip_thorough("c12_job.rs")
+    w.drop_downstream_dev_deps("yash-env")
+    w.disable_unit_tests_under_kani("yash-env")
     w.inject("yash-env/src/lib.rs", "shim_hashmap.rs", modname="verif_shim")
     t1_hashmap(w, "yash-env/src/job.rs")
     w.transform("T1 HashMap->association list", "yash-env/src/job.rs",
